@@ -1,0 +1,17 @@
+//go:build !verif
+
+package ecs
+
+// Tracing hooks for trace validation (build tag "verif"). Without the tag they compile to nothing.
+
+const traceEnabled = false
+
+type traceSpan struct{}
+
+func (w *World) traceBegin(kind string, entity Entity, add, rem []ID, relations []relationID, batch *Batch, count int) traceSpan {
+	return traceSpan{}
+}
+
+func (s traceSpan) end() {}
+
+func (w *World) traceLock(delta int) {}
